@@ -161,3 +161,58 @@ func VH_C03_companion_late_inflection() {
 	vAssert("C03.companion.curve_within_5_tolerances_of_polyline", worst <= 5*tol)
 	vAssert("C03.companion.endpoints_exact", len(co) >= 2 && vhPtEq(co[0], c.p0) && vhPtEq(co[len(co)-1], c.p3))
 }
+
+// C03 companion: the contract the replace-driver harnesses assume of the arc rewriters, on a grid
+// of concrete arcs (the centre-form grid of VH_C08_ellipse_to_center): Flatten gives only lines,
+// ReplaceArcs only cubics (and lines), both start and end exactly at the arc's end points, and every
+// vertex of the flattening lies within 2 tolerances of the ellipse.  Concrete; no solver verdict.
+func VH_C03_companion_arcs() {
+	radii := [][2]float64{{1, 1}, {2, 1}, {5, 0.5}, {10, 10}}
+	rr := radii[vChoose(0, len(radii)-1)]
+	rx, ry := rr[0], rr[1]
+	rots := [][2]float64{{1, 0}, {0.8, 0.6}, {0, 1}, {-0.6, 0.8}}
+	rot := rots[vChoose(0, len(rots)-1)]
+	cphi, sphi := rot[0], rot[1]
+	units := [][2]float64{{1, 0}, {0.8, 0.6}, {0, 1}, {-0.96, 0.28}, {-0.6, -0.8}, {0.5, 0.8660254037844386}, {-0.5, 0.8660254037844386}}
+	i0 := vChoose(0, len(units)-1)
+	i1 := vChoose(0, len(units)-1)
+	if i0 == i1 {
+		return
+	}
+	c0, s0 := units[i0][0], units[i0][1]
+	c1, s1 := units[i1][0], units[i1][1]
+	cross := c0*s1 - s0*c1
+	if math.Abs(cross) < 1e-3 {
+		return
+	}
+	sweep := vChoose(0, 1) == 1
+	large := (cross < 0) == sweep
+	x0, y0 := rx*c0*cphi-ry*s0*sphi, rx*c0*sphi+ry*s0*cphi
+	x1, y1 := rx*c1*cphi-ry*s1*sphi, rx*c1*sphi+ry*s1*cphi
+	phi := math.Atan2(sphi, cphi)
+	p := &Path{d: []float64{MoveToCmd, x0, y0, MoveToCmd, ArcToCmd, rx, ry, phi, fromArcFlags(large, sweep), x1, y1, ArcToCmd}}
+	tol := 0.01
+	f := p.Flatten(tol)
+	co := f.Coords()
+	onlyLines := true
+	for i := 0; i < len(f.d); i += cmdLen(f.d[i]) {
+		onlyLines = onlyLines && (f.d[i] == MoveToCmd || f.d[i] == LineToCmd)
+	}
+	worst := 0.0
+	for _, q := range co {
+		// implicit equation of the ellipse around the origin
+		u := (cphi*q.X + sphi*q.Y) / rx
+		v := (-sphi*q.X + cphi*q.Y) / ry
+		e := math.Abs(math.Sqrt(u*u+v*v)-1) * ry // distance scale: the smaller radius
+		worst = math.Max(worst, e)
+	}
+	vAssert("C03.companion.arc_flatten_lines_from_start_to_end", onlyLines && len(co) >= 2 && vhPtEq(co[0], Point{x0, y0}) && vhNearPt(co[len(co)-1], Point{x1, y1}))
+	vAssert("C03.companion.arc_flatten_vertices_near_ellipse", worst <= 2*tol)
+	r := p.ReplaceArcs()
+	noArcs := true
+	for i := 0; i < len(r.d); i += cmdLen(r.d[i]) {
+		noArcs = noArcs && r.d[i] != ArcToCmd
+	}
+	rc := r.Coords()
+	vAssert("C03.companion.replacearcs_no_arcs_from_start_to_end", noArcs && len(rc) >= 2 && vhPtEq(rc[0], Point{x0, y0}) && vhNearPt(rc[len(rc)-1], Point{x1, y1}))
+}
